@@ -59,6 +59,11 @@ RQ = "qkeras.qtools.run_qtools"
 ES = "qkeras.estimate"
 
 
+CONCRETE_CLASSES = ("Conv2D", "QConv2D", "QConv2DBatchnorm",
+                    "DepthwiseConv2D", "QDepthwiseConv2D", "Conv1D",
+                    "QConv1D")
+
+
 def S(name):
   return Tensor(("sym", name), ())
 
@@ -90,6 +95,12 @@ def mock_layer(cname, rank):
   }
   if cname in ("AveragePooling2D", "AvgPool2D", "QAveragePooling2D"):
     attrs["pool_size"] = (S("ph"), S("pw"))
+  if cname in CONCRETE_CLASSES:
+    n = rank - 2
+    attrs.update({"kernel_size": tuple(kshape[:n]), "strides": (1,) * n,
+                  "padding": "valid", "dilation_rate": (1,) * n,
+                  "filters": oshape[-1], "groups": 1, "depth_multiplier": 1,
+                  "data_format": "channels_last", "use_bias": True})
   return Mock(cname, attrs), ishape
 
 
@@ -115,6 +126,67 @@ def reference_count(cname):
   return None, None
 
 
+def out_len(n, k, s, padding, d):
+  """Keras' output-size rule (conv_utils.conv_output_length)."""
+  if padding in ("same", "causal"):
+    return -(-n // s)
+  eff = d * (k - 1) + 1
+  return -(-(n - eff + 1) // s)
+
+
+def concrete_layers():
+  """(class name, layer stand-in with concrete hyper-parameters and shapes,
+  input shape, true MAC count, label) over kernel / stride / padding /
+  dilation."""
+  import itertools
+  H, W, Ci, Co = 9, 8, 2, 3
+  geos = []
+  for k, s, d in (((3, 2), (1, 1), (1, 1)), ((3, 2), (2, 1), (1, 1)),
+                  ((3, 3), (2, 3), (1, 1)), ((3, 2), (1, 1), (2, 3)),
+                  ((2, 3), (1, 1), (3, 1)), ((1, 1), (2, 2), (1, 1))):
+    for padding in ("same", "valid"):
+      geos.append((k, s, d, padding))
+  for cname in ("Conv2D", "QConv2D", "QConv2DBatchnorm", "DepthwiseConv2D",
+                "QDepthwiseConv2D"):
+    dw = "Depthwise" in cname
+    for k, s, d, padding in geos:
+      for dm in ((1, 2) if dw else (1,)):
+        ho = out_len(H, k[0], s[0], padding, d[0])
+        wo = out_len(W, k[1], s[1], padding, d[1])
+        co = Ci * dm if dw else Co
+        kshape = (k[0], k[1], Ci, dm if dw else Co)
+        oshape = (None, ho, wo, co)
+        attrs = {
+            "__class__": Mock("class", {"__name__": cname}), "name": "layer",
+            "kernel_size": k, "strides": s, "padding": padding,
+            "dilation_rate": d, "filters": co, "depth_multiplier": dm,
+            "groups": 1, "data_format": "channels_last", "use_bias": True,
+            "compute_output_shape": lambda pe, a, k_, o=oshape: o,
+            "get_weights": lambda pe, a, k_, ks=kshape, c=co: [
+                Mock("weight", {"shape": ks}), Mock("bias", {"shape": (c,)})]}
+        want = ho * wo * k[0] * k[1] * (Ci * dm if dw else Ci * Co)
+        cfg = "%s(kernel=%s, strides=%s, padding=%s, dilation=%s%s) on " \
+            "%dx%dx%d" % (cname, k, s, padding, d, ", depth_multiplier=%d" %
+                          dm if dw else "", H, W, Ci)
+        yield cname, Mock(cname, attrs), (None, H, W, Ci), want, cfg
+  for cname in ("Conv1D", "QConv1D"):
+    for k, s, d, padding in itertools.chain(
+        ((g[0][0], g[1][0], g[2][0], g[3]) for g in geos),
+        ((3, 1, 2, "causal"), (2, 2, 1, "causal"))):
+      to = out_len(H, k, s, padding, d)
+      attrs = {
+          "__class__": Mock("class", {"__name__": cname}), "name": "layer",
+          "kernel_size": (k,), "strides": (s,), "padding": padding,
+          "dilation_rate": (d,), "filters": Co, "groups": 1,
+          "data_format": "channels_last", "use_bias": True,
+          "compute_output_shape": lambda pe, a, k_, o=(None, to, Co): o,
+          "get_weights": lambda pe, a, k_, ks=(k, Ci, Co): [
+              Mock("weight", {"shape": ks}), Mock("bias", {"shape": (Co,)})]}
+      cfg = "%s(kernel=%d, strides=%d, padding=%s, dilation=%d) on %dx%d" % (
+          cname, k, s, padding, d, H, Ci)
+      yield cname, Mock(cname, attrs), (None, H, Ci), to * k * Ci * Co, cfg
+
+
 COUNT_CLASSES = ("Dense", "QDense", "Conv1D", "QConv1D", "Conv2D", "QConv2D",
                  "QConv2DBatchnorm", "DepthwiseConv2D", "QDepthwiseConv2D",
                  "QDepthwiseConv2DBatchnorm", "AveragePooling2D",
@@ -130,6 +202,8 @@ def rule_counts(rep, repo):
   unit = "%s::get_operation_count" % qu.relpath
   rep.unit(unit)
   fw = Fwd()
+  symbolic_skipped = []
+  rep.extra["decided_on_concrete_geometries_only"] = symbolic_skipped
   for cname in COUNT_CLASSES:
     refs, rank = reference_count(cname)
     layer, ishape = mock_layer(cname, rank)
@@ -138,19 +212,52 @@ def rule_counts(rep, repo):
     f = pe.lookup_global("get_operation_count", qu)
     try:
       r = pe.call(f, [layer, ishape], {})
-    except PyRaise as e:
+    except (PyRaise, Unsupported) as e:
+      if cname in CONCRETE_CLASSES:
+        # a count derived from the hyper-parameters may not evaluate on
+        # symbolic shapes; the concrete geometries below decide it
+        symbolic_skipped.append(cname)
+        continue
       rep.fail("R1", unit, "count-raises:" + cname,
                "get_operation_count raises %s for a %s layer" % (e, cname),
                loc=qu.loc(fn))
       continue
     got = fw(r.term) if isinstance(r, Tensor) else NF.const(F(r))
+    if cname in CONCRETE_CLASSES and any(
+        got.depends_on(("sym", s_)) for s_ in ("Hi", "Wi", "Ti")):
+      symbolic_skipped.append(cname)
+      continue
     rep.check(any(got == ref for ref in refs), "R1", unit,
-              "count:" + cname,
+              "count:%s:reported %s" % (cname, show(got)),
               "operation count of a %s layer is %s, the layer performs %s "
               "multiply-accumulates per sample" %
               (cname, show(got), " or ".join(show(r_) for r_ in refs)),
               loc=qu.loc(fn), facts={"class": cname, "got": show(got)})
     rep.sample({"class": cname, "operation_count": show(got)})
+  # the same function on concrete geometries: a count that is derived from
+  # the layer's hyper-parameters instead of compute_output_shape must agree
+  # with Keras' output-size rule for every stride / padding / dilation
+  ngeo = 0
+  for cname, layer, ishape, want, cfg in concrete_layers():
+    pe = PE(repo)
+    pe.fork = Fork([])
+    try:
+      r = pe.call(pe.lookup_global("get_operation_count", qu),
+                  [layer, ishape], {})
+    except PyRaise as e:
+      rep.fail("R1", unit, "count-raises:" + cname,
+               "get_operation_count raises %s for %s" % (e, cfg),
+               loc=qu.loc(fn), instance=cfg)
+      continue
+    ngeo += 1
+    got = r.term[1] if isinstance(r, Tensor) and r.term[0] == "c" else r
+    rep.check(isinstance(got, (int, F)) and got == want, "R1", unit,
+              "count-on-geometry:" + cname,
+              "%s: operation count %s, the layer performs %d "
+              "multiply-accumulates per sample" % (cfg, got, want),
+              loc=qu.loc(fn), instance=cfg)
+  if ngeo < 100:
+    raise AnalysisError("instance-count only %d concrete geometries" % ngeo)
   # estimate.extract_model_operations arms
   es = repo.module(ES)
   efn = es.functions.get("extract_model_operations")
@@ -209,11 +316,35 @@ def rule_counts(rep, repo):
         continue
       got = fw(v.term) if isinstance(v, Tensor) else NF.const(F(v))
       rep.check(any(got == ref for ref in refs), "R1", unit,
-                "count:" + cname,
+                "count:%s:reported %s" % (cname, show(got)),
                 "number_of_operations of a %s layer is %s, the layer "
                 "performs %s multiply-accumulates per sample" %
                 (cname, show(got), " or ".join(show(r_) for r_ in refs)),
                 loc=es.loc(node), facts={"class": cname, "got": show(got)})
+      # the same arm on concrete geometries (depth multiplier, dilation)
+      for cn2, layer2, ishape2, want2, cfg2 in concrete_layers():
+        if cn2 != cname:
+          continue
+        pe2 = PE(repo)
+        pe2.fork = Fork([])
+        frame2 = {"layer": layer2, "input_shape": ishape2,
+                  "output_shape": layer2.attrs["compute_output_shape"](
+                      pe2, [], {})}
+        for st in node.body:
+          try:
+            pe2.exec_stmt(st, [frame2], es)
+          except (PyRaise, Unsupported):
+            pass
+          if "number_of_operations" in frame2:
+            break
+        v2 = frame2.get("number_of_operations")
+        if isinstance(v2, Tensor) and v2.term[0] == "c":
+          v2 = v2.term[1]
+        rep.check(isinstance(v2, (int, F)) and v2 == want2, "R1", unit,
+                  "count-on-geometry:" + cname,
+                  "%s: number_of_operations %s, the layer performs %d "
+                  "multiply-accumulates per sample" % (cfg2, v2, want2),
+                  loc=es.loc(node), instance=cfg2)
   if arms < 5:
     raise AnalysisError("instance-count only %d number_of_operations arms "
                         "found in extract_model_operations" % arms)
